@@ -35,9 +35,14 @@ Dev_PyDerivedStructAsType(d) ==    \* D.parse(span) of a derived struct
 Dev_SizeModifier(d) ==             \* size < modifier accepted
   AnyField(d, LAMBDA decl, j, f : f.mod > 0)
 
+Dev_PySplitReservedChunk(d) ==      \* adjacent reserved fields (a reserved-only chunk in several pieces) are skipped unchecked
+  \E i \in PacketLike(d) : \E j \in 1..(Len(d.decls[i].fields) - 1) :
+     d.decls[i].fields[j].kind = "reserved" /\ d.decls[i].fields[j + 1].kind = "reserved"
+
 PyClean(d) ==
   /\ PySupported(d)
   /\ ~Dev_PyRangeOnlyEnum(d) /\ ~Dev_PyDerivedStructAsType(d) /\ ~Dev_SizeModifier(d) /\ ~Dev_PayloadThenPaddedArray(d)
+  /\ ~Dev_PySplitReservedChunk(d)
 
 (* ---- c++ ---- *)
 Dev_CxxLazyElements(d) ==          \* enum / struct elements are validated lazily, in the getter
